@@ -487,6 +487,74 @@ pub fn run(tier: Tier) -> i32 {
     for p in parts {
         rep.stats.merge(p);
     }
+    // (3b) a nested block that is one cell of a row in a sequence of mappings (the shape the matrix
+    //      pass turns into a table): the block must keep addressing exactly its own path, as
+    //      loaded and after every optimiser switch set that rebuilds rows
+    let row_paths = ["a.a", "a.b", "a.a.b", "a.b.a"];
+    let mut jobs: Vec<(&str, &String, &String)> = vec![];
+    for p in row_paths {
+        for l1 in &leaves {
+            for l2 in leaves.iter().take(3) {
+                jobs.push((p, l1, l2));
+            }
+        }
+    }
+    let parts: Vec<Stats> = jobs
+        .par_iter()
+        .map(|(p, l1, l2)| {
+            let mut st = Stats::default();
+            let segs: Vec<&str> = p.split('.').collect();
+            let mut body = serde_json::to_string(l1).unwrap();
+            for sg in segs.iter().rev() {
+                body = format!("{{{}: {}}}", sg, body);
+            }
+            // body is {a: {..}}: splice the shared leaf field b into the same row
+            let row = format!("{{b: {}, {}", serde_json::to_string(l2).unwrap(), &body[1..]);
+            let yaml = format!(
+                "detection:\n  A:\n    - {}\n    - {{b: zz, c: zz}}\n    - {{b: zy}}\n  condition: A\ntrue_positives: []\ntrue_negatives: []\n",
+                row
+            );
+            let (rule, rr) = match (eng::load(&yaml), refint::parse_rule(&yaml)) {
+                (Ok(a), Some(b)) => (a, b),
+                _ => {
+                    st.count("row_rules_rejected", 1);
+                    return st;
+                }
+            };
+            let forms: Vec<(u8, tau_engine::Rule)> = (0u8..16)
+                .filter_map(|sw| eng::optimise_with(&rule, sw, &[]).ok().map(|x| (sw, x.0)))
+                .collect();
+            let mut t = false;
+            for d in &docs {
+                let exp = refint::eval_rule(&rr, d);
+                for (sw, o) in &forms {
+                    let v = eng::val3(o, d).unwrap_or(2);
+                    st.states += 1;
+                    st.transitions += 1;
+                    st.evaluations += 1;
+                    st.traces += 1;
+                    if v == 1 {
+                        t = true;
+                    }
+                    let ok = if v == 1 { exp & refint::T != 0 } else { v != 2 && exp != refint::T };
+                    if !ok {
+                        st.push_violation(Violation {
+                            signature: format!("nested-block-in-a-row:{}", if *sw == 0 { "differs-from-reference" } else { "optimised-form-differs-from-reference" }),
+                            witness: format!("row with nested {}: {} after optimise({}) on {} = {} ; reference {}", p, l1, eng::sw_name(*sw), d.show(), eng::v3name(v), refint::set_name(exp)),
+                            replay: json!({"kind":"optimise","rule_yaml":yaml,"sw_bits":sw,"hash_order_choices":[],"document":crate::report::mobj_to_json(d)}),
+                        });
+                    }
+                }
+            }
+            if t {
+                st.nontrivial += 1;
+            }
+            st
+        })
+        .collect();
+    for p in parts {
+        rep.stats.merge(p);
+    }
     // (4) totality of find() on arbitrary key strings (no value oracle)
     let alpha = ["a", ".", "[", "]", "0", "1", "-", "+", " "];
     let maxlen = if th { 6 } else { 5 };
@@ -534,7 +602,7 @@ pub fn run(tier: Tier) -> i32 {
     rep.stats.count("arbitrary_keys", keys.len() as u64);
     rep.stats.sample(json!({"path":"a.a.a","document":"{a: {}}","reference":"missing"}));
     rep.stats.sample(json!({"path":"a[1].b","document":docs.last().map(|d| d.show()),"reference":"per resolver"}));
-    rep.rule = "paths: every sequence of 1..N segments over keys {a,b} each with optional index [0..2]; documents: every tree D ::= leaf | {} | {a:D} | {b:D} | {a:D,b:D} | [] | [D] | [D,D] up to the depth/node bound with unique string leaves; full product on 5 representations (hand-written Object, serde_yaml Mapping, serde_json Map, HashMap of std types, &dyn Object) against the reference resolver (identity of the addressed value); the same through Rule::matches with `path: leaf` for every leaf; nested-mapping form vs dotted form vs reference; totality on every key string over {a . [ ] 0 1 - + space} up to the length bound. non-trivial = document has both resolving and non-resolving paths".into();
+    rep.rule = "paths: every sequence of 1..N segments over keys {a,b} each with optional index [0..2]; documents: every tree D ::= leaf | {} | {a:D} | {b:D} | {a:D,b:D} | [] | [D] | [D,D] up to the depth/node bound with unique string leaves; full product on 5 representations (hand-written Object, serde_yaml Mapping, serde_json Map, HashMap of std types, &dyn Object) against the reference resolver (identity of the addressed value); the same through Rule::matches with `path: leaf` for every leaf; nested-mapping form vs dotted form vs reference; a nested block as one cell of a row in a sequence of mappings under all 16 switch sets vs reference; totality on every key string over {a . [ ] 0 1 - + space} up to the length bound. non-trivial = document has both resolving and non-resolving paths".into();
     rep.assumptions = vec!["malformed index syntax (a[0][1], a[x]) has no value oracle, only totality".into()];
     rep.finish()
 }
